@@ -264,6 +264,7 @@ func genShaped(t *rapid.T) *Scenario {
 		}
 		sc.Values[i] = v
 	}
+	sc.Cfg = genCfgShape(t) // (drawn last, see genScenario)
 	return sc
 }
 
